@@ -101,7 +101,7 @@ def timer_irq_programs(rnd, n, tag, first_id):
         cclr = rnd.choice([0, 0, 1, 2, 3])
         if cclr in (1, 2) and tb == ta:
             cclr = 0
-        cks = rnd.choice([1, 1, 1, 2])
+        cks = rnd.choice([1, 1, 1, 2, 1, 1, 2, 4, 5, 7])     # 4-7: no internal clock, nothing may count
         # the counter period must be longer than the handlers it triggers, or the main loop never advances (the
         # implementation's run loop has no step limit): with counter clear on a compare match keep that match far enough
         lim = 0x20 if cks == 1 else 4
@@ -129,6 +129,17 @@ def timer_irq_programs(rnd, n, tag, first_id):
         code += body + [0x1a, 0x0e]
         d = l - (len(code) + 2)
         code += [0x46, d & 0xff]
+        # after the loop: sometimes another clock selection (stop, switch, external), a few short instructions, then
+        # TCNT and TCSR are read back into R5L / R5H
+        k = rnd.random()
+        if k < 0.5:
+            # (a faster clock only with the interrupts disabled: see the period condition above)
+            v = rnd.choice([0, 0, tcr & 0xf8 | 5, tcr & 0xf8 | 4, tcr & 0xf8 | (2 if cks == 1 else cks), tcr & 0x18 | rnd.choice([1, 2, 3])])
+            code += isa.enc_mov_imm("b", v, 14) + [0x3e, 0x80]
+            for _f in range(rnd.randrange(0, 6)):
+                code += [0x0a, 0x0a]                       # INC.B R2L
+        if k < 0.85:
+            code += [0x2d, 0x88, 0x25, 0x82]
         exit_off = len(code)
         code += [0x40, 0xfe]
         mem = {base: code}
